@@ -34,6 +34,7 @@ type World struct {
 	regs     []*Registration // cache
 	lisp     map[string]*LispFile
 	exprAt   map[token.Pos]ast.Expr
+	assignAt map[token.Pos]*ast.AssignStmt
 	regNames map[string]string
 	pfvDepth int
 }
@@ -514,6 +515,9 @@ func tableRows(vals ...ssa.Value) [][]ssa.Value {
 		if mi, ok := v.(*ssa.MakeInterface); ok {
 			v = mi.X
 		}
+		if ct, ok := v.(*ssa.ChangeType); ok {
+			v = ct.X
+		}
 		var base ssa.Value
 		field := -1
 		switch x := v.(type) {
@@ -587,6 +591,28 @@ func tableRows(vals ...ssa.Value) [][]ssa.Value {
 			continue
 		}
 		for _, u := range *ia.Referrers() {
+			// the row built in a local composite and stored whole: arr[k] = complit
+			if st, ok := u.(*ssa.Store); ok && st.Addr == ssa.Value(ia) {
+				if ld, ok := st.Val.(*ssa.UnOp); ok {
+					if cl, ok := ld.X.(*ssa.Alloc); ok && cl.Referrers() != nil {
+						for _, cr := range *cl.Referrers() {
+							cfa, ok := cr.(*ssa.FieldAddr)
+							if !ok || cfa.Referrers() == nil {
+								continue
+							}
+							for _, u2 := range *cfa.Referrers() {
+								if st2, ok := u2.(*ssa.Store); ok && st2.Addr == ssa.Value(cfa) {
+									if rows[k.Int64()] == nil {
+										rows[k.Int64()] = map[int]ssa.Value{}
+									}
+									rows[k.Int64()][cfa.Field] = st2.Val
+								}
+							}
+						}
+					}
+				}
+				continue
+			}
 			fa, ok := u.(*ssa.FieldAddr)
 			if !ok {
 				continue
@@ -617,6 +643,9 @@ func tableRows(vals ...ssa.Value) [][]ssa.Value {
 }
 
 func fnValueOf(v ssa.Value) *ssa.Function {
+	if ct, ok := v.(*ssa.ChangeType); ok {
+		v = ct.X
+	}
 	if mi, ok := v.(*ssa.MakeInterface); ok {
 		v = mi.X
 	}
@@ -668,4 +697,49 @@ func (w *World) withPkgHelpersOf(fn *ssa.Function) []*ssa.Function {
 		return nil
 	}
 	return w.withPkgHelpers(fn)
+}
+
+// regFuncsOfArg: the Go functions a registration call can be handed through the given argument: the function or
+// literal itself, the rows of a table walked by a loop, the elements of a slice (variadic) parameter at the call
+// sites of the enclosing helper (registerAll(env, f, g, h)), or what a parameter of such a helper receives.
+func (w *World) regFuncsOfArg(v ssa.Value, depth int) []*ssa.Function {
+	if depth > 3 {
+		return nil
+	}
+	if f := fnValueOf(v); f != nil {
+		return []*ssa.Function{f}
+	}
+	var out []*ssa.Function
+	for _, row := range tableRows(v) {
+		if f := fnValueOf(row[0]); f != nil {
+			out = append(out, f)
+		}
+	}
+	if len(out) > 0 {
+		return out
+	}
+	if ct, ok := v.(*ssa.ChangeType); ok {
+		v = ct.X
+	}
+	if mi, ok := v.(*ssa.MakeInterface); ok {
+		v = mi.X
+	}
+	switch x := v.(type) {
+	case *ssa.Parameter:
+		for _, a := range w.callSiteArgs(x) {
+			out = append(out, w.regFuncsOfArg(a, depth+1)...)
+		}
+	case *ssa.UnOp:
+		// the element of a range over a slice parameter
+		if ia, ok := x.X.(*ssa.IndexAddr); ok {
+			if p, ok := ia.X.(*ssa.Parameter); ok {
+				for _, a := range w.callSiteArgs(p) {
+					for _, el := range sliceLiteralElemsOrdered(a) {
+						out = append(out, w.regFuncsOfArg(el, depth+1)...)
+					}
+				}
+			}
+		}
+	}
+	return out
 }
